@@ -2,6 +2,7 @@ import Comdex.Base.Line
 import Comdex.Model.DutchPrice
 import Comdex.Model.DutchV2
 import Comdex.Model.DutchV1
+import Comdex.Model.DutchV1Lend
 /-! Driver plug-in for the Dutch-auction models (C10).
 
 Pure price-function lines (real exported helpers / real block hooks on synthetic records):
@@ -23,8 +24,13 @@ balances := `name:coll:debt,...`      misc := `net=..;ext=..;res=..;supply=..;..
 First generation (x/auction), one seized vault:
   dutch.v1.begin <env1> <rec1> <balances> <misc>
   dutch.v1.bid   who slice                <ok|err|validate|panic> <rec1> <balances> <misc>
-  dutch.v1.tick  now twaC actC twaD actD  <ok|panic> <rec1> <balances> <misc>
+  dutch.v1.tick  now twaC actC twaD actD esmOn snapshot  <ok|panic> <rec1> <balances> <misc>
 rec1 := `closed` | `out=..;in=..;price=..;init=..;endp=..;inp=..;start=..;end=..`   misc := `net=<n|none>;supply=..`
+First generation, liquidated borrow (x/auction dutch_lend.go):
+  dutch.l1.begin <envL> <rec1> <balances> <misc>
+  dutch.l1.bid   who slice lendReserveDebtBalance  <outcome> <rec1> <balances> <misc>
+  dutch.l1.tick  now twaC actC twaD actD  <ok|panic> <rec1> <balances> <misc>
+  (`pool` = pool account + lend module account; extra monitors proceeds_forwarded, lend_bonus_stranded)
 Monitors (on REAL values): pay_le_target receive_le_collateral books_exact (+ `_after_d7` variants, see `finish`) posted_price
 price_monotone price_in_range price_below_end_at_T
 price_in_range_slack close_distributes reserve_draw_skipped limit_fill_overcharge start_price start_record.
@@ -36,7 +42,7 @@ open Comdex Comdex.Line Comdex.DutchV2
 def names : List (String × Acct) :=
   [("b1", .bidder 1), ("b2", .bidder 2), ("b3", .bidder 3), ("b4", .bidder 4), ("auction", .auction),
    ("collector", .collector), ("owner", .owner), ("keeper", .keeper), ("initiator", .initiator),
-   ("reserve", .reserve), ("vault", .vaultMod), ("pool", .pool)]
+   ("reserve", .reserve), ("vault", .vaultMod), ("pool", .pool), ("lendres", .lendres), ("poolin", .poolIn), ("esm", .esm)]
 
 def acctOf (n : String) : Option Acct := (names.find? (·.1 = n)).map (·.2)
 def bidderNo (n : String) : Option Nat :=
@@ -49,6 +55,7 @@ structure Obs where
   ext : Int
   res : Option Int
   supply : Int
+  tr : Int × Int := (0, 0)      -- bridge-asset balances of the debt pool and of the collateral's pool (lend, cross-pool)
 
 
 /-! ### first generation -/
@@ -64,6 +71,18 @@ structure V1St where
   prev : Option Obs1 := none
   begin_ : Option Obs1 := none
   supply0 : Int := 0
+  realPaid : Int := 0
+  realRecv : Int := 0
+  baseC : Int := 0
+  baseD : Int := 0
+
+
+/-! ### first generation, liquidated borrows -/
+structure L1St where
+  e : DutchV1Lend.Env := {}
+  s : DutchV1Lend.St := {}
+  prev : Option Obs1 := none
+  begin_ : Option Obs1 := none
   realPaid : Int := 0
   realRecv : Int := 0
   baseC : Int := 0
@@ -87,6 +106,7 @@ structure St where
   overReal : Int := 0      -- limit deposits debited beyond what the auction charged (auctions.go:567-572)
   closedSeen : Bool := false
   v1 : V1St := {}
+  l1 : L1St := {}
 
 def init : St := {}
 
@@ -119,16 +139,20 @@ def parseObs (r b m : String) : Option Obs := do
   let net ← getI fs "net"; let ext ← getI fs "ext"; let supply ← getI fs "supply"
   let resS ← field? fs "res"
   let res ← if resS = "none" then some none else (parseInt? resS).map some
-  pure { auc := rec, bals := bals, net := net, ext := ext, res := res, supply := supply }
+  let tr : Int × Int := match (field? fs "tr").map (·.splitOn ":") with
+    | some [a, b] => ((parseInt? a).getD 0, (parseInt? b).getD 0)
+    | _ => (0, 0)
+  pure { auc := rec, bals := bals, net := net, ext := ext, res := res, supply := supply, tr := tr }
 
 def balOf (o : Obs) (n : String) : Int × Int :=
   match o.bals.find? (·.1 = n) with | some (_, c, d) => (c, d) | none => (0, 0)
 
 def bankOf (o : Obs) : Bank :=
+  let b0 : Bank := (Bank.set (Bank.set [] Acct.pool Denom.transit o.tr.1) Acct.poolIn Denom.transit o.tr.2)
   o.bals.foldl (fun b (n, c, d) =>
     match acctOf n with
     | some a => (b.set a .coll c).set a .debt d
-    | none => b) []
+    | none => b) b0
 
 /-- model-side projection in the same shape as the real observation -/
 def modelObs (st : St) (o : Obs) : Obs :=
@@ -137,17 +161,18 @@ def modelObs (st : St) (o : Obs) : Obs :=
       match acctOf n with
       | some a => (n, st.s.bank.get a .coll, st.s.bank.get a .debt)
       | none => (n, 0, 0),
-    net := st.s.netFees, ext := st.s.extFees, res := st.s.reserve, supply := st.supply0 - st.s.burned }
+    net := st.s.netFees, ext := st.s.extFees, res := st.s.reserve, supply := st.supply0 - st.s.burned,
+    tr := (st.s.bank.get .pool .transit, st.s.bank.get .poolIn .transit) }
 
 def showBals (l : List (String × Int × Int)) : String :=
   ",".intercalate (l.map fun (n, c, d) => s!"{n}:{c}:{d}")
 
 def showObs (o : Obs) : String :=
   let res := match o.res with | none => "none" | some q => toString q
-  s!"{showRec o.auc} {showBals o.bals} net={o.net};ext={o.ext};res={res};supply={o.supply}"
+  s!"{showRec o.auc} {showBals o.bals} net={o.net};ext={o.ext};res={res};supply={o.supply};tr={o.tr.1}:{o.tr.2}"
 
 def sameObs (a b : Obs) : Bool :=
-  a.auc == b.auc && a.bals == b.bals && a.net == b.net && a.ext == b.ext && a.res == b.res && a.supply == b.supply
+  a.auc == b.auc && a.bals == b.bals && a.net == b.net && a.ext == b.ext && a.res == b.res && a.supply == b.supply && a.tr == b.tr
 
 /-- adopt the real observation as the model state (after a divergence) keeping the ghosts -/
 def adopt (st : St) (o : Obs) : St :=
@@ -165,7 +190,8 @@ def parseEnv (s : String) : Option Env :=
     let premium ← getI fs "premium"; let discount ← getI fs "discount"; let cmst ← getI fs "cmst"
     pure { kind := kind, decC := decC, decD := decD, target := target, fee := fee, bonus0 := bonus0, coll0 := coll0,
            isKeeper := keeper = 1, incentive := incentive, minUsd := minUsd, T := T, premium := premium,
-           discount := discount, cmst := cmst = 1 }
+           discount := discount, cmst := cmst = 1,
+           lendPen := (getI fs "lendPen").getD 0, lendInt := (getI fs "lendInt").getD 0, bridged := (getI fs "bridged").getD 0 }
 
 def parseLB (s : String) : Option (List (Int × String × Int)) :=
   if s = "-" ∨ s = "" then some [] else
@@ -259,7 +285,7 @@ def finish (st : St) (seq : String) (outcomeModelOk : Bool) (outcome : String) (
         let custody := decide (aC = st.baseC) && decide (aD + shortReal = baseD + (o.ext - st.ext0))
         let dlt (n : String) : Int := (balOf o n).2 - (balOf b0 n).2
         let burned := b0.supply - o.supply
-        let out := burned + dlt "collector" + dlt "keeper" + dlt "initiator" + dlt "pool" + (o.ext - st.ext0)
+        let out := burned + dlt "collector" + dlt "keeper" + dlt "initiator" + dlt "pool" + dlt "lendres" + (o.ext - st.ext0)
         let proceeds := decide (realPaid - overReal + drawn + shortReal = out) && decide (out = st.e.target)
         let ownerOk := decide ((balOf o "owner").1 - (balOf b0 "owner").1 = st.e.coll0 - realRecv)
         mon seq ("close_distributes" ++ sfx) (custody && proceeds && ownerOk)
@@ -353,7 +379,9 @@ def finish1 (v : V1St) (seq : String) (isBid : Bool) (okM : Bool) (outcome : Str
         let burned := b0.supply - o.supply
         let collIn := (bal1 o "collector").2 - (bal1 b0 "collector").2      -- net: penalty in minus shortfall cover out
         let proceeds := decide (realPaid = burned + collIn) && decide (burned + collIn + (v.e.target - realPaid) = v.e.target)
-        let ownerOk := decide ((bal1 o "owner").1 - (bal1 b0 "owner").1 = v.e.coll0 - realRecv)
+        -- the unsold collateral goes to the owner (bid close) or, in an emergency-shutdown wind-down, to the vault / ESM module
+        let dC (n : String) : Int := (bal1 o n).1 - (bal1 b0 n).1
+        let ownerOk := decide (dC "owner" + dC "vault" + dC "esm" = v.e.coll0 - realRecv)
         mon seq "close_distributes" (custody && proceeds && ownerOk)
     else []
   let v' := { v with prev := some o, realPaid := realPaid, realRecv := realRecv }
@@ -416,10 +444,11 @@ def handleV1 (v : V1St) (seq : String) (f : List String) : V1St × List String :
       let v1 := { v with s := match res with | .ok s' => s' | .error _ => v.s }
       finish1 v1 seq true okM o obs pm
     | _, _, _ => (v, [s!"BAD\t{seq}\tv1 bid"])
-  | ["dutch.v1.tick", now, twaC, actC, twaD, actD, o, r, b, m] =>
+  | ["dutch.v1.tick", now, twaC, actC, twaD, actD, esm, snap, o, r, b, m] =>
     match parseInt? now, parseInt? twaC, parseBool? actC, parseInt? twaD, parseBool? actD, parseObs1 r b m with
     | some now, some twaC, some actC, some twaD, some actD, some obs =>
-      let s' := DutchV1.step v.e v.s (.tick now twaC actC twaD actD)
+      let s' := if esm = "1" then DutchV1.step v.e v.s (.tickEsm now twaC actC twaD actD (snap = "1"))
+                else DutchV1.step v.e v.s (.tick now twaC actC twaD actD)
       let prevRec := v.prev.bind (·.auc)
       let pm := match obs.auc with
         | some cur => priceMons1 seq v.e prevRec cur now ++
@@ -434,8 +463,117 @@ def handleV1 (v : V1St) (seq : String) (f : List String) : V1St × List String :
     | _, _, _, _, _, _ => (v, [s!"BAD\t{seq}\tv1 tick"])
   | _ => (v, [s!"BAD\t{seq}\tunknown dutch.v1 line"])
 
+
+/-! ### first generation, liquidated borrows: handlers -/
+def parseObsL (r b : String) : Option Obs1 := do
+  let rec ← parseRec1 r
+  let bals ← parseBals b
+  pure { auc := rec, bals := bals, net := none, supply := 0 }
+
+def parseEnvL (s : String) : Option DutchV1Lend.Env :=
+  let fs := kv s
+  do
+    let decC ← getI fs "decC"; let decD ← getI fs "decD"; let target ← getI fs "target"; let coll0 ← getI fs "coll0"
+    let deposit ← getI fs "deposit"; let bonus ← getI fs "bonus"; let dust ← getI fs "dust"; let T ← getI fs "T"
+    let buffer ← getI fs "buffer"; let cusp ← getI fs "cusp"
+    pure { decC := decC, decD := decD, target := target, coll0 := coll0, deposit := deposit, bonus := bonus, dust := dust, T := T,
+           buffer := buffer, cusp := cusp }
+
+def modelObsL (v : L1St) (o : Obs1) : Obs1 :=
+  { auc := v.s.auc,
+    bals := o.bals.map fun (n, _, _) =>
+      match acctOf n with
+      | some a => (n, v.s.bank.get a .coll, v.s.bank.get a .debt)
+      | none => (n, 0, 0),
+    net := none, supply := 0 }
+
+def finishL (v : L1St) (seq : String) (isBid : Bool) (okM : Bool) (outcome : String) (o : Obs1) (redep : Int) (extra : List String) : L1St × List String :=
+  let mo := modelObsL v o
+  let d1 := if isBid ∧ okM != (outcome = "ok") then [s!"DIFF\t{seq}\toutcome model={okM} impl={outcome}"] else []
+  let d2 := if sameObs1 mo o then [] else [s!"DIFF\t{seq}\tmodel={showObs1 mo}\timpl={showObs1 o}"]
+  let prev := v.prev.getD o
+  let (paidNow, recvNow) := ["b1", "b2", "b3", "b4"].foldl (fun (p, r) n =>
+    let (c0, d0) := bal1 prev n
+    let (c1, d1) := bal1 o n
+    (p + (d0 - d1), r + (c1 - c0))) (0, 0)
+  let realPaid := v.realPaid + paidNow
+  let realRecv := v.realRecv + recvNow
+  let m1 := mon seq "pay_le_target" (decide (realPaid ≤ v.e.target))
+  let m2 := mon seq "receive_le_collateral" (decide (realRecv ≤ v.e.deposit))
+  -- the proceeds never rest in the module account: every unit paid is with the lending side after the same message
+  let (aC, aD) := bal1 o "auction"
+  let mD := match v.begin_ with
+    | some b0 => mon seq "proceeds_forwarded" (decide (aD = v.baseD) && decide ((bal1 o "pool").2 - (bal1 b0 "pool").2 = realPaid))
+    | none => []
+  let closing := prev.auc.isSome ∧ o.auc.isNone
+  let m3 :=
+    if closing then
+      match v.begin_ with
+      | none => []
+      | some b0 =>
+        let ownerGot := (bal1 o "owner").1 - (bal1 b0 "owner").1
+        let rest := aC - v.baseC - redep                       -- what is still in the module of this auction's collateral
+        let conserved := decide (rest = v.e.deposit - realRecv - ownerGot) && decide (0 ≤ rest)
+        -- the only remainder the DIFF-free model explains: the part of the bonus pot that was not paid out
+        let explained := decide (rest = v.e.deposit - v.e.coll0 - v.s.bonusPaid)
+        mon seq "close_distributes" (conserved && explained) ++ mon seq "lend_bonus_stranded" (decide (rest = 0))
+    else []
+  let v' := { v with prev := some o, realPaid := realPaid, realRecv := realRecv, baseC := if closing then v.baseC + redep else v.baseC }
+  let v' := if d2.isEmpty then v' else { v' with s := { v'.s with auc := o.auc, bank := bankOf1 o } }
+  (v', d1 ++ d2 ++ m1 ++ m2 ++ mD ++ m3 ++ extra)
+
+def handleL1 (v : L1St) (seq : String) (f : List String) : L1St × List String :=
+  match f with
+  | ["dutch.l1.begin", env, r, b, _] =>
+    match parseEnvL env, parseObsL r b with
+    | some e, some o =>
+      match o.auc with
+      | none => (v, [s!"BAD\t{seq}\tl1 begin without auction"])
+      | some a =>
+        let s0 := DutchV1Lend.initSt e a (bankOf1 o)
+        let v' : L1St := { e := e, s := s0, prev := some o, begin_ := some o, baseC := s0.otherC, baseD := s0.otherD }
+        let twaC := (getI (kv env) "twaC").getD 0
+        let okStart := match DutchPrice.startPrice twaC e.buffer with
+          | .ok p0 => decide (a.price = p0) && decide (a.init = p0) &&
+              (match DutchPrice.endPrice p0 e.cusp with | .ok ep => decide (a.endP = ep) | .error _ => false)
+          | .error _ => false
+        -- what was moved in covers the auctioned collateral plus the largest bonus that can be paid on it
+        let okRec := decide (a.outCur = e.coll0) && decide (a.inCur = 0) && decide (a.end_ = a.start + e.T) &&
+          decide (e.coll0 + (e.coll0 * e.bonus) / Dec.P ≤ e.deposit)
+        (v', mon seq "start_price" okStart ++ mon seq "start_record" okRec)
+    | _, _ => (v, [s!"BAD\t{seq}\tl1 begin"])
+  | ["dutch.l1.bid", who, amt, res, o, r, b, _] =>
+    match bidderNo who, parseInt? amt, parseInt? res, parseObsL r b with
+    | some w, some amt, some res, some obs =>
+      -- collateral handed to the module by an immediate re-liquidation of the same borrow (external value, REAL balances)
+      let redep := match v.prev with
+        | some p => if obs.auc.isNone ∧ p.auc.isSome then (bal1 p "pool").1 - (bal1 obs "pool").1 else 0
+        | none => 0
+      let r := DutchV1Lend.bidE v.e v.s w amt redep res
+      let okM := match r with | .ok _ => true | .error _ => false
+      let v1 := { v with s := match r with | .ok s' => s' | .error _ => v.s }
+      finishL v1 seq true okM o obs redep []
+    | _, _, _, _ => (v, [s!"BAD\t{seq}\tl1 bid"])
+  | ["dutch.l1.tick", now, twaC, actC, twaD, actD, o, r, b, _] =>
+    match parseInt? now, parseInt? twaC, parseBool? actC, parseInt? twaD, parseBool? actD, parseObsL r b with
+    | some now, some twaC, some actC, some twaD, some actD, some obs =>
+      let s' := DutchV1Lend.step v.e v.s (.tick now twaC actC twaD actD)
+      let prevRec := v.prev.bind (·.auc)
+      let e1 : DutchV1.Env := { T := v.e.T, buffer := v.e.buffer, cusp := v.e.cusp }
+      let pm := match obs.auc with
+        | some cur => priceMons1 seq e1 prevRec cur now
+        | none => []
+      let dpanic := if o = "ok" then [] else [s!"DIFF\t{seq}\tl1 begin blocker panicked"]
+      let (v2, outs) := finishL { v with s := s' } seq false true "ok" obs 0 pm
+      (v2, dpanic ++ outs)
+    | _, _, _, _, _, _ => (v, [s!"BAD\t{seq}\tl1 tick"])
+  | _ => (v, [s!"BAD\t{seq}\tunknown dutch.l1 line"])
+
 def handle (st : St) (seq : String) (f : List String) : St × List String :=
   match f with
+  | "dutch.l1.begin" :: _ | "dutch.l1.bid" :: _ | "dutch.l1.tick" :: _ =>
+    let (v, outs) := handleL1 st.l1 seq f
+    ({ st with l1 := v }, outs)
   | "dutch.v1.begin" :: _ | "dutch.v1.bid" :: _ | "dutch.v1.tick" :: _ =>
     let (v, outs) := handleV1 st.v1 seq f
     ({ st with v1 := v }, outs)
